@@ -114,6 +114,9 @@ func genCase0(t *rapid.T) *Case {
 	if rapid.IntRange(0, 9).Draw(t, "emptyFirst") == 0 {
 		c.EmptyFirst = rapid.IntRange(1, 2).Draw(t, "emptyKind")
 	}
+	if rapid.IntRange(0, 4).Draw(t, "editOpts") == 0 {
+		c.EditOpts = rapid.IntRange(1, 4).Draw(t, "editKind")
+	}
 	if rapid.IntRange(0, 2).Draw(t, "readd") == 0 {
 		// steer: an endpoint is removed and re-added (a new incarnation) while timers of the old one are pending
 		perm := rapid.Permutation([]int{0, 1, 2, 3, 4}).Draw(t, "rperm")
